@@ -73,9 +73,12 @@ namespace rkcommon {
       //       overflow INDEX_T for counts close to its maximum
       INDEX_T numBlocks = (nTasks - 1) / BLOCK_SIZE + 1;
       parallel_for(numBlocks, [&](INDEX_T blockID) {
-        INDEX_T begin = blockID * (INDEX_T)BLOCK_SIZE;
-        INDEX_T end   = (nTasks - begin > (INDEX_T)BLOCK_SIZE)
-            ? begin + (INDEX_T)BLOCK_SIZE
+        // NOTE: BLOCK_SIZE is not converted to INDEX_T, it may not fit (a
+        //       block size of 300 with an unsigned char count); the products
+        //       and sums below do, they stay below nTasks
+        INDEX_T begin = static_cast<INDEX_T>(blockID * BLOCK_SIZE);
+        INDEX_T end   = (nTasks - begin > BLOCK_SIZE)
+            ? static_cast<INDEX_T>(begin + BLOCK_SIZE)
             : nTasks;
         fcn(begin, end);
       });
